@@ -63,9 +63,9 @@ fn c01_o7_fetch_hot_path() {
             assert!(unsafe { ptr.as_ref() }.header.verified_at.load().as_usize() == v, "C01: verified_at changed although the memo was not accepted");
         }
     }
-    kani::cover!(got.is_some() && v < now);
-    kani::cover!(got.is_none() && has_value && is_final);
-    kani::cover!(got.is_none() && !has_value && valid);
+    kani::cover!(has_value && is_final && valid && v < now);
+    kani::cover!(has_value && is_final && !valid);
+    kani::cover!(!has_value && valid);
     std::mem::forget(ing);
     std::mem::forget(zalsa);
 }
